@@ -115,6 +115,8 @@ type Frame struct {
 	sharedAlloc map[*ssa.Alloc]bool
 	// copy-loop idioms of this function and whether the summary write was emitted this pass
 	copyStores map[*ssa.Store]*copyLoop
+	// values of the captured variables of the function literal about to be inlined
+	pendingFree []AV
 	// forEachPathValue plumbing (orderedLoad)
 	eachPick func(Conj, AV) bool
 	eachOK   bool
@@ -236,6 +238,11 @@ func (f *Frame) prescan() {
 				}
 				if !ro {
 					f.escaped[a] = true
+				} else {
+					if f.sharedAlloc == nil {
+						f.sharedAlloc = map[*ssa.Alloc]bool{}
+					}
+					f.sharedAlloc[a] = true
 				}
 			case *ssa.Call:
 				// handing the address to a function of the module that will be evaluated inline (its
@@ -774,7 +781,9 @@ func (f *Frame) useIn(ai AInt, st DNF, where string) Aff {
 	}
 	for _, c := range ai.conds {
 		if !st.entails(atomGE(c.a, affConst(c.lo))) || !st.entails(atomLE(c.a, affConst(c.hi))) {
-			if f.an.quiet == 0 && len(st) > 0 {
+			// a merge of control flow is not a use: the merged value becomes the in-range unknown
+			// below and whatever later depends on it has to be proven about that unknown
+			if f.an.quiet == 0 && len(st) > 0 && where != "phi/merge" {
 				f.an.wraps = append(f.an.wraps, WrapEvent{fn: f.fn, pos: c.pos, what: c.what, use: where})
 				if debugTrace {
 					fmt.Printf("WRAPFAIL %s: %s in [%d,%d] at %s\n   state=%s\n", where, c.a.String(), c.lo, c.hi, c.pos, truncate(st.String(), 1500))
@@ -1034,6 +1043,10 @@ func (f *Frame) step(in ssa.Instruction) {
 		fv := AFunc{fn: x.Fn.(*ssa.Function)}
 		if strings.HasPrefix(fv.fn.Synthetic, "bound method wrapper") && len(x.Bindings) == 1 {
 			fv.recv = f.val(x.Bindings[0])
+		} else {
+			for _, b := range x.Bindings {
+				fv.free = append(fv.free, f.val(b))
+			}
 		}
 		f.set(x, fv)
 	case *ssa.Lookup:
@@ -2702,6 +2715,11 @@ func freeVarReadOnly(v ssa.Value, depth int) bool {
 			}
 			// the loaded value itself may be a pointer that is written through; only single-word
 			// non-pointer-to-struct cells are of interest to the callers of this predicate
+		case *ssa.FieldAddr, *ssa.IndexAddr:
+			// reading a field or element of the captured variable
+			if !freeVarReadOnly(x.(ssa.Value), depth+1) {
+				return false
+			}
 		case *ssa.DebugRef:
 		case *ssa.MakeClosure:
 			f2, ok := x.Fn.(*ssa.Function)
